@@ -185,8 +185,10 @@ def z_models():
     dom = z3.Plus(z3.Range(" ", "~"))
     bad = 0
     unknown = []
+    _models_seen = []
     for seq in seqs[lo:hi]:
         r, model = synth(S, rx, dom, prepared, [seq])
+        _models_seen.append(model if r == "sat" else None)
         if r != "sat":
             if r == "unsat":
                 # the chain can never match: the sequence is dead in devdb
@@ -204,6 +206,26 @@ def z_models():
         rt.record({"sequence": ".".join(seq), "model": model}, ok, list(seq) if len(seq) >= 2 else None, detail=detail,
                   fingerprint="C18:%s" % kind)
         bad += 0 if ok else 1
+    # one provider serving all models of this shard, in both orders: every rulebook must equal the fresh-provider one
+    from annet.rulebook import DefaultRulebookProvider
+    from annet.annlib.netdev.views.hardware import HardwareView
+    from annet.vendors import registry_connector
+    models = [m for m in _models_seen if m is not None]
+    for order in (models, list(reversed(models))):
+        prov = DefaultRulebookProvider()
+        for m in order:
+            hw = HardwareView(m, "")
+            if hw.vendor not in registry_connector.get():
+                continue
+            try:
+                shared = _dump_rb(prov.get_rulebook(hw))
+                fresh = _dump_rb(DefaultRulebookProvider().get_rulebook(HardwareView(m, "")))
+            except Exception as e:  # noqa
+                continue
+            ok = shared == fresh
+            rt.record({"provider_sequence": order, "model": m}, ok, ["shared", m], detail={"model": m, "loaded_before": order[:order.index(m)][-6:]},
+                      fingerprint="C18:rulebook-depends-on-provider-history")
+            bad += 0 if ok else 1
     return {"verdict": "refuted" if bad else ("inconclusive" if unknown else "confirmed"), "queries": S.queries,
             "solver_s": round(S.solver_s, 3), "unknown": unknown}
 
@@ -277,6 +299,21 @@ def plan(tier):
 
 
 def replay(obligation, case):
+    if obligation == "models" and "provider_sequence" in case:
+        from annet.rulebook import DefaultRulebookProvider
+        from annet.annlib.netdev.views.hardware import HardwareView
+        from annet.vendors import registry_connector
+        prov = DefaultRulebookProvider()
+        ok = True
+        for m in case["provider_sequence"]:
+            hw = HardwareView(m, "")
+            if hw.vendor not in registry_connector.get():
+                continue
+            shared = _dump_rb(prov.get_rulebook(hw))
+            if m == case["model"]:
+                ok = shared == _dump_rb(DefaultRulebookProvider().get_rulebook(HardwareView(m, "")))
+                break
+        return {"ok": ok, "detail": case, "fingerprint": "C18:rulebook-depends-on-provider-history"}
     if obligation == "models":
         if case.get("model") is None:
             return {"ok": False, "detail": case, "fingerprint": "C18:devdb:unreachable-sequence:%s" % case["sequence"]}
